@@ -1,6 +1,7 @@
 """C04 - strum / HOPO / tap state follows the natural-HOPO rule and flags."""
 from vf.runner import Ob
 from .common import *  # noqa: F401,F403
+from .common import _ned
 
 LEVEL = "model_checking"
 IN, TK = "chartparse.instrument.", "chartparse.tick."
@@ -17,8 +18,7 @@ def obligations(tier):
         for p in range(32):
             obs.append(Ob(f"C04.hopo.1024pairs.part{p}", "CH", "harness.h_instrument", "hopo_state", 1500, {"VF_PAIRS": 1024, "VF_NPARTS": 32, "VF_PART": p},
                           funcs=(IN + "NoteEvent._compute_hopo_state", IN + "Note.is_chord"), bounds="32 of all 1024 ordered note pairs"))
-    obs.append(Ob("C04.flags_dataflow", "CH", "harness.h_instrument", "note_event_dataflow", 300, funcs=(IN + "NoteEvent.from_parsed_data",),
-                  bounds="is_tap/is_forced/resolution/previous handed to the rule"))
+    obs += _ned("C04.flags_dataflow", tier, (IN + "NoteEvent.from_parsed_data",))
     idxs = ["0,1", "0,6,1", "2,2,5"] if tier == "quick" else ["0,1", "0,6,1", "2,2,5", "7,0", "0,1,5", "3,6", "1,2,2"]
     for ix in idxs:
         obs.append(Ob(f"C04.integrated.note_section[{ix}]", "CH", "harness.h_integrated", "note_section", 1200, {"VF_IDX": ix, "VF_ORDER": 2},
